@@ -191,6 +191,17 @@ theorem Inv.same {p p' : Pool} (hI : Inv p) (hL : p'.L = p.L) (hobjs : ∀ x, p'
     (fun k blk hk => by rw [hheap] at hk; rw [hnext]; exact hI.bound k blk hk)
   exact ⟨⟨this.1, hL, hF, fun x _ => hobjs x, this.2⟩, fun x => this.2 x (fun h => h)⟩
 
+/-- the invariant does not mention the allocation counter or the fault schedule -/
+theorem Inv.congr {p p' : Pool} (hI : Inv p) (hL : p'.L = p.L) (hobjs : ∀ x, p'.objs x = p.objs x)
+    (hheap : ∀ k, p'.heap k = p.heap k) (hnext : p'.next = p.next) : Inv p' :=
+  (hI.frame (p' := p') (fun _ => False) hL (fun x _ => hobjs x) (fun _ k _ _ => hheap k)
+    (fun _ _ h => h.elim) (fun _ _ _ h => h.elim) (fun _ _ _ h => h.elim)
+    (fun k blk hk => by
+      rw [hheap] at hk
+      obtain ⟨y, hy⟩ := hI.noLeak k blk hk
+      exact Or.inr ⟨y, fun h => h, hy⟩)
+    (fun k blk hk => by rw [hheap] at hk; rw [hnext]; exact hI.bound k blk hk)).1
+
 /-! ### generic preservation lemmas -/
 
 /-- **an object is set to a self-contained local state, or removed**; its former block, if any, is released -/
